@@ -165,6 +165,13 @@ func (s *seqRun) step(i int, o Op) bool {
 	case "gctimer":
 		s.w.GCTimer()
 		s.probes["gc-timer"]++
+	case "seqjump":
+		// a burst of sequence numbers drawn by somebody else (the counter is shared by every database
+		// of the process): nothing any reader sees may depend on how far the counter has moved
+		sequence.VerifAdvance(uint64(o.Size))
+		s.probes["sequence-jump"]++
+	case "sleep":
+		// (real time passes only for the real-gRPC client; the simulated clients have no idle timers)
 	case "bg":
 		simrt.Background(o.N)
 	case "drain":
